@@ -391,6 +391,26 @@ class Ctx:
         return fails
 
 
+def run_apalache(module: str, workdir: Path, args: list, timeout=600):
+    """apalache-mc check on spec/<module>.tla; returns (verdict, tail of output):
+    verdict 'ok' (EXITCODE: OK), 'violation' (a counterexample was found) or 'error'."""
+    out = workdir / f"apa_{module}"
+    shutil.rmtree(out, ignore_errors=True)
+    cmd = ["apalache-mc", "check", f"--out-dir={out}"] + args + [str(SPEC / f"{module}.tla")]
+    try:
+        p = subprocess.run(cmd, cwd=workdir, capture_output=True, text=True, timeout=timeout)
+    except subprocess.TimeoutExpired:
+        raise Machinery(f"apalache {module}: timeout")
+    finally:
+        shutil.rmtree(out, ignore_errors=True)
+    text = p.stdout + p.stderr
+    if "EXITCODE: OK" in text:
+        return "ok", text[-1500:]
+    if "violat" in text.lower() or "EXITCODE: ERROR (12)" in text:
+        return "violation", text[-1500:]
+    return "error", text[-1500:]
+
+
 class HardTimeout(Exception):
     """the code under test did not return within the hard limit"""
 
